@@ -371,13 +371,13 @@ def RwFinal.rewrites : RwFinal → Nat
 /-- with enough fuel for the remaining budget the loop terminates, more fuel changes nothing,
     and the number of rewrites stays within what is left -/
 theorem rwRun_bounded (matcher : Bytes → List MatchRes) (templates : List Bytes) (ridx : Nat)
-    (cond : Option Caps) (opts : Opts) (scheme authority : Option Bytes) (port : Nat) :
+    (cond : Option Caps) (opts : Opts) (scheme authority serverName : Bytes) (port : Nat) :
     ∀ (fuel : Nat) (target : Bytes) (h : Option RwState) (n k : Nat),
       (∀ st, h = some st → st.count ≤ 100) → rwBudget h ≤ fuel →
-      rwRun matcher templates ridx cond opts scheme authority port (fuel + k) target h n =
-        rwRun matcher templates ridx cond opts scheme authority port fuel target h n ∧
-      rwRun matcher templates ridx cond opts scheme authority port fuel target h n ≠ .outOfFuel ∧
-      (rwRun matcher templates ridx cond opts scheme authority port fuel target h n).rewrites
+      rwRun matcher templates ridx cond opts scheme authority serverName port (fuel + k) target h n =
+        rwRun matcher templates ridx cond opts scheme authority serverName port fuel target h n ∧
+      rwRun matcher templates ridx cond opts scheme authority serverName port fuel target h n ≠ .outOfFuel ∧
+      (rwRun matcher templates ridx cond opts scheme authority serverName port fuel target h n).rewrites
         ≤ n + rwRewritesLeft h := by
   intro fuel
   induction fuel with
@@ -390,8 +390,7 @@ theorem rwRun_bounded (matcher : Bytes → List MatchRes) (templates : List Byte
     have e : fuel + 1 + k = (fuel + k) + 1 := by omega
     rw [e]
     simp only [rwRun]
-    generalize hr : rwCall ridx cond
-      { scheme := scheme, authority := authority, port := port, path := target, query := targetQuery target }
+    generalize hr : rwCall ridx cond (requestUrl scheme authority serverName port target)
       (templates.zip (matcher target)) h = r
     obtain ⟨res, h'⟩ := r
     cases res with
@@ -427,6 +426,164 @@ theorem rwRun_bounded (matcher : Bytes → List MatchRes) (templates : List Byte
           have h3 := this.2.2
           simp only [rwRewritesLeft] at h3 ⊢
           omega
+
+theorem rwCall_goOn {ridx : Nat} {cond : Option Caps} {url : UrlParts}
+    {rules : List (Bytes × MatchRes)} {h h1 : Option RwState}
+    (hc : rwCall ridx cond url rules h = (.goOn, h1)) :
+    h1 = h.map fun st => { st with count := st.count + 1 } := by
+  unfold rwCall at hc
+  cases h with
+  | none =>
+    simp only [Option.map_none] at hc ⊢
+    unfold rwCall.body at hc
+    split at hc
+    · split at hc <;> simp at hc
+    · simp at hc
+    · simp only [Prod.mk.injEq, true_and] at hc; exact hc.symm
+  | some st =>
+    simp only [Option.map_some] at hc ⊢
+    split at hc
+    · simp at hc
+    · split at hc
+      · simp only [Prod.mk.injEq, true_and] at hc; exact hc.symm
+      · unfold rwCall.body at hc
+        split at hc
+        · split at hc <;> simp at hc
+        · simp at hc
+        · simp only [Prod.mk.injEq, true_and] at hc; exact hc.symm
+
+/-- state after the uri hook returned GO_ON: unchanged, or the counter advanced by one -/
+theorem rwUri_goOn {ridx : Nat} {cond : Option Caps} {url : UrlParts}
+    {rules : List (Bytes × MatchRes)} {h h1 : Option RwState}
+    (hc : rwUri ridx cond url rules h = (.goOn, h1)) :
+    h1 = h ∨ h1 = h.map fun st => { st with count := st.count + 1 } := by
+  unfold rwUri at hc
+  split at hc
+  · left; simp only [Prod.mk.injEq, true_and] at hc; exact hc.symm
+  · right; exact rwCall_goOn hc
+
+theorem rwUri_comeback {ridx : Nat} {cond : Option Caps} {url : UrlParts}
+    {rules : List (Bytes × MatchRes)} {h h' : Option RwState} {t' : Bytes}
+    (hc : rwUri ridx cond url rules h = (.comeback t', h')) :
+    (h = none ∧ ∃ f, h' = some { count := 0, finished := f }) ∨
+    (∃ st f, h = some st ∧ st.count + 1 ≤ rwLoopLimit ∧ st.finished = false ∧
+        h' = some { count := st.count + 1, finished := f }) := by
+  unfold rwUri at hc
+  split at hc
+  · simp at hc
+  · exact rwCall_comeback hc
+
+theorem rwPhysical_comeback {hs : Bool} {kind : FsKind} {ridx : Nat} {cond : Option Caps} {url : UrlParts}
+    {rules : List (Bytes × MatchRes)} {h h' : Option RwState} {t' : Bytes}
+    (hc : rwPhysical hs kind ridx cond url rules h = (.comeback t', h')) :
+    (h = none ∧ ∃ f, h' = some { count := 0, finished := f }) ∨
+    (∃ st f, h = some st ∧ st.count + 1 ≤ rwLoopLimit ∧ st.finished = false ∧
+        h' = some { count := st.count + 1, finished := f }) := by
+  unfold rwPhysical at hc
+  split at hc
+  · simp at hc
+  · split at hc
+    · simp at hc
+    · split at hc
+      · simp at hc
+      · exact rwCall_comeback hc
+
+/-- a COMEBACK from either hook strictly lowers the budget and keeps the counter within the limit -/
+theorem comeback_budget {h h' : Option RwState}
+    (hcb : (h = none ∧ ∃ f, h' = some { count := 0, finished := f }) ∨
+      (∃ st f, h = some st ∧ st.count + 1 ≤ rwLoopLimit ∧ st.finished = false ∧
+        h' = some { count := st.count + 1, finished := f })) :
+    rwBudget h' + 1 ≤ rwBudget h ∧ rwRewritesLeft h' + 1 ≤ rwRewritesLeft h ∧
+    (∀ st, h' = some st → st.count ≤ 100) := by
+  rcases hcb with ⟨hn, f, hh⟩ | ⟨st, f, hs, hl, _, hh⟩
+  · subst hn; subst hh
+    refine ⟨by simp [rwBudget], by simp [rwRewritesLeft], ?_⟩
+    intro st hst; simp only [Option.some.injEq] at hst; subst hst; simp
+  · subst hs; subst hh
+    simp only [rwLoopLimit] at hl
+    refine ⟨by simp only [rwBudget]; omega, by simp only [rwRewritesLeft]; omega, ?_⟩
+    intro st' hst; simp only [Option.some.injEq] at hst; subst hst; simp; omega
+
+/-- the budget after the uri hook returned GO_ON is not larger than before -/
+theorem goOn_budget {h h1 : Option RwState}
+    (hg : h1 = h ∨ h1 = h.map fun st => { st with count := st.count + 1 }) :
+    rwBudget h1 ≤ rwBudget h ∧ rwRewritesLeft h1 ≤ rwRewritesLeft h := by
+  rcases hg with hg | hg
+  · subst hg; simp
+  · subst hg
+    cases h with
+    | none => simp
+    | some st => simp only [Option.map_some, rwBudget, rwRewritesLeft]; omega
+
+/-- the whole rewrite stage (both hooks, any per-pass configuration and filesystem) is bounded -/
+theorem rwRunG_bounded (pass : Bytes → RwPass) (opts : Opts) (scheme authority serverName : Bytes) (port : Nat) :
+    ∀ (fuel : Nat) (target : Bytes) (h : Option RwState) (n k : Nat),
+      (∀ st, h = some st → st.count ≤ 100) → rwBudget h ≤ fuel →
+      rwRunG pass opts scheme authority serverName port (fuel + k) target h n =
+        rwRunG pass opts scheme authority serverName port fuel target h n ∧
+      rwRunG pass opts scheme authority serverName port fuel target h n ≠ .outOfFuel ∧
+      (rwRunG pass opts scheme authority serverName port fuel target h n).rewrites ≤ n + rwRewritesLeft h := by
+  intro fuel
+  induction fuel with
+  | zero =>
+    intro target h n k hc hb
+    have := rwBudget_pos h hc
+    omega
+  | succ fuel ih =>
+    intro target h n k hc hb
+    have e : fuel + 1 + k = (fuel + k) + 1 := by omega
+    rw [e]
+    simp only [rwRunG]
+    generalize hu : rwUri (pass target).uriIdx (pass target).cond
+      (requestUrl scheme authority serverName port target) (pass target).uriRules h = ru
+    obtain ⟨res, h1⟩ := ru
+    -- what happens after a COMEBACK with state h' whose budget is below h's
+    have again : ∀ (t' : Bytes) (h' : Option RwState),
+        rwBudget h' + 1 ≤ rwBudget h → rwRewritesLeft h' + 1 ≤ rwRewritesLeft h →
+        (∀ st, h' = some st → st.count ≤ 100) →
+        (match parseTarget opts false t' with
+         | .error e => RwFinal.status e (n + 1)
+         | .ok tg => rwRunG pass opts scheme authority serverName port (fuel + k) tg.target h' (n + 1)) =
+        (match parseTarget opts false t' with
+         | .error e => RwFinal.status e (n + 1)
+         | .ok tg => rwRunG pass opts scheme authority serverName port fuel tg.target h' (n + 1)) ∧
+        (match parseTarget opts false t' with
+         | .error e => RwFinal.status e (n + 1)
+         | .ok tg => rwRunG pass opts scheme authority serverName port fuel tg.target h' (n + 1)) ≠ .outOfFuel ∧
+        (match parseTarget opts false t' with
+         | .error e => RwFinal.status e (n + 1)
+         | .ok tg => rwRunG pass opts scheme authority serverName port fuel tg.target h' (n + 1)).rewrites
+          ≤ n + rwRewritesLeft h := by
+      intro t' h' hb' hr' hc'
+      cases parseTarget opts false t' with
+      | error e => simp only [RwFinal.rewrites, ne_eq, reduceCtorEq, not_false_eq_true, true_and]; omega
+      | ok tg =>
+        simp only
+        have := ih tg.target h' (n + 1) k hc' (by omega)
+        exact ⟨this.1, this.2.1, by have := this.2.2; omega⟩
+    cases res with
+    | comeback t' =>
+      simp only
+      obtain ⟨b1, b2, b3⟩ := comeback_budget (rwUri_comeback hu)
+      exact again t' _ b1 b2 b3
+    | goOn =>
+      simp only
+      obtain ⟨g1, g2⟩ := goOn_budget (rwUri_goOn hu)
+      generalize hp : rwPhysical (pass target).handlerSet (pass target).kind (pass target).nfIdx (pass target).cond
+        (requestUrl scheme authority serverName port target) (pass target).nfRules h1 = rp
+      obtain ⟨res2, h2⟩ := rp
+      cases res2 with
+      | comeback t' =>
+        simp only
+        obtain ⟨b1, b2, b3⟩ := comeback_budget (rwPhysical_comeback hp)
+        exact again t' _ (by omega) (by omega) b3
+      | goOn => simp [RwFinal.rewrites]
+      | loopError => simp [RwFinal.rewrites]
+      | invalidResult => simp [RwFinal.rewrites]
+      | pcreError => simp [RwFinal.rewrites]
+    | loopError => simp [RwFinal.rewrites]
+    | invalidResult => simp [RwFinal.rewrites]
+    | pcreError => simp [RwFinal.rewrites]
 
 /-! ### evhost -/
 
@@ -539,7 +696,10 @@ def Modifier.kvFlag : Modifier → Nat
 
 /-- keyvalue.c's modifier -> recoding map is the documented one (and captures default to escpsnde) -/
 def ModifierMapAsDocumented : Prop :=
-  (∀ m : Modifier, m.kvFlag = m.flag) ∧ Extracted.kvMod_default = Extracted.burlEncodePsnde
+  (∀ m : Modifier, m.kvFlag = m.flag) ∧ Extracted.kvMod_default = Extracted.burlEncodePsnde ∧
+  -- a case modifier on its own does not suppress the default encoding of a capture
+  Extracted.kvMod_bare_tolower = Extracted.burlToLower ||| Extracted.burlEncodePsnde ∧
+  Extracted.kvMod_bare_toupper = Extracted.burlToUpper ||| Extracted.burlEncodePsnde
 
 /-- the documented modifiers as (name, flag) pairs -/
 def documentedModifiers : List (Bytes × Nat) :=
@@ -594,12 +754,10 @@ def capOf (env : Env) (c : UInt8) (n : Nat) : Bytes × Bytes :=
 /-- what an item appends, given the recoding flags `fl` selected by the modifiers before it -/
 def Item.apply (env : Env) (c : UInt8) (fl : Nat) : Item → Bytes → Bytes
   | .cap d, out =>
-    -- captures are recoded with escpsnde unless a modifier says otherwise
-    out ++ burlAppend (if fl = 0 then Extracted.burlEncodePsnde else fl)
-             (capOf env c (d.toNat - 48)).1 (capOf env c (d.toNat - 48)).2
+    -- captures get the default encoding unless an encoding modifier was given (`capFlags`)
+    out ++ burlAppend (capFlags fl) (capOf env c (d.toNat - 48)).1 (capOf env c (d.toNat - 48)).2
   | .cap2 d1 d2, out =>
-    out ++ burlAppend (if fl = 0 then Extracted.burlEncodePsnde else fl)
-             (capOf env c ((d1.toNat - 48) * 10 + (d2.toNat - 48))).1
+    out ++ burlAppend (capFlags fl) (capOf env c ((d1.toNat - 48) * 10 + (d2.toNat - 48))).1
              (capOf env c ((d1.toNat - 48) * 10 + (d2.toNat - 48))).2
   | .scheme, out => out ++ burlAppend fl (env.url.scheme.getD []) []
   | .authority, out => out ++ burlAppend fl (env.url.authority.getD []) []
@@ -665,8 +823,7 @@ theorem extGo_modifiers (env : Env) (sigil : UInt8) (out p : Bytes) :
     omega
 
 /-- the item that ends a placeholder, after any modifiers (`fl` = flags selected so far) -/
-theorem extGo_item (hdef : Extracted.kvMod_default = Extracted.burlEncodePsnde)
-    (env : Env) (c : UInt8) (out t : Bytes) (pos fl : Nat) (item : Item) (hw : item.WF) :
+theorem extGo_item (env : Env) (c : UInt8) (out t : Bytes) (pos fl : Nat) (item : Item) (hw : item.WF) :
     extGo env c out (item.render ++ rbrace :: t) 0 pos fl =
       some (item.apply env c fl out, pos + item.render.length + 1) := by
   have e1 : ofString "url.scheme" = [117, 114, 108, 46, 115, 99, 104, 101, 109, 101] := by decide
@@ -679,11 +836,11 @@ theorem extGo_item (hdef : Extracted.kvMod_default = Extracted.burlEncodePsnde)
   | cap d =>
     simp only [Item.WF] at hw
     simp only [Item.render, List.cons_append, List.nil_append, extGo, hw, if_true]
-    simp [extNumber, isDigit, rbrace, idxOf?, capAppend_eq, Item.apply, hdef]
+    simp [extNumber, isDigit, rbrace, idxOf?, capAppend_eq, Item.apply]
   | cap2 d1 d2 =>
     simp only [Item.WF] at hw
     simp only [Item.render, List.cons_append, List.nil_append, extGo, hw.1, if_true]
-    simp [extNumber, hw.2, rbrace, idxOf?, capAppend_eq, Item.apply, hdef]
+    simp [extNumber, hw.2, rbrace, idxOf?, capAppend_eq, Item.apply]
   | scheme =>
     simp only [Item.render, e1, List.cons_append, List.nil_append]
     simp only [extGo, startsWith, sEsc, sNo, sTo, sUrlDot, sScheme, ofString, isDigit, rbrace]
@@ -741,7 +898,7 @@ theorem substGo_tok (hmap : ModifierMapAsDocumented) (env : Env) (tk : Tok) (hw 
     simp only [Tok.render, List.cons_append, List.append_assoc, Tok.interp]
     rw [substGo_brace env c hc]
     simp only [substExt, List.nil_append]
-    rw [extGo_modifiers, extGo_item hmap.2 env c out t _ _ item hi]
+    rw [extGo_modifiers, extGo_item env c out t _ _ item hi]
     simp only [hmap.1]
     have hl : (mods.flatMap Modifier.name ++ item.render ++ [rbrace]).length =
         0 + (mods.flatMap Modifier.name).length + item.render.length + 1 := by
